@@ -91,6 +91,11 @@ func (g *G) stmt(bd int) []hs.Stmt {
 			return []hs.Stmt{s}
 		}
 		return []hs.Stmt{g.letStmt(d)}
+	case r < 58 && !g.c.off("bare-expr-stmt"):
+		// an expression statement whose value is dropped (it can still fail or have effects)
+		t := g.scalarType()
+		g.feat("bare-expr-stmt")
+		return []hs.Stmt{hs.ExprStmt{X: g.expr(t, d), Semi: true}}
 	case r < 62:
 		if s, ok := g.mutateStmt(d); ok {
 			return []hs.Stmt{s}
